@@ -5,6 +5,9 @@ import OrsoVerif.Lemmas.DisplaySel
 import OrsoVerif.Lemmas.DisplayTable
 import OrsoVerif.Lemmas.DisplayColor
 import OrsoVerif.Lemmas.DisplayMd
+import OrsoVerif.Lemmas.DisplayShown
+import OrsoVerif.Lemmas.DisplayFmt
+import OrsoVerif.Lemmas.DisplayTok
 /-!
 # C18 — Rendering a DataFrame never fails and shows the right rows
 
@@ -87,6 +90,20 @@ theorem src_lazy_length_head_only : srcArith.lazyHeadOnly = specArith.lazyHeadOn
 /-- `min(max(cw, ctw, dw), max_column_width)`. -/
 theorem src_column_width : srcArith.colWidth = specArith.colWidth := by
   funext a b c m; simp only [srcArith, specArith, Gen.DisplayExpr.colWidth, max3, min3]; omega
+
+/-- `calculate_data_width(t.collect(i))`: every row of the printed frame `t` is measured. -/
+theorem src_measure_all_rows : srcArith.measure = specArith.measure := by
+  funext t l; simp only [srcArith, specArith, measureRows]; omega
+
+/-- `islice(table._rows, limit)`, `deque(maxlen=limit)`, `table.head(size=limit) + table.tail(size=limit)`,
+`table.slice(length=limit)`: every size in the selection of the printed rows is `limit`. -/
+theorem src_selection_sizes :
+    srcArith.lazyHeadOnlyTake = specArith.lazyHeadOnlyTake ∧ srcArith.lazyHeadTake = specArith.lazyHeadTake
+    ∧ srcArith.dequeMax = specArith.dequeMax ∧ srcArith.eagerHeadSize = specArith.eagerHeadSize
+    ∧ srcArith.eagerTailSize = specArith.eagerTailSize ∧ srcArith.eagerSliceLen = specArith.eagerSliceLen := by
+  refine ⟨?_, ?_, ?_, ?_, ?_, ?_⟩ <;> funext l <;>
+    simp only [srcArith, specArith, Gen.DisplayExpr.lazyHeadOnlyTake, Gen.DisplayExpr.lazyHeadTake, Gen.DisplayExpr.dequeMax,
+      Gen.DisplayExpr.eagerHeadSize, Gen.DisplayExpr.eagerTailSize, Gen.DisplayExpr.eagerSliceLen] <;> omega
 
 /-- `i += table.rowcount - 2*limit` (repair F01: not `t.rowcount`). -/
 theorem src_eager_label_shift : srcArith.eagerShift = specArith.eagerShift := by
@@ -191,6 +208,13 @@ theorem src_arith_eq_spec : srcArith = specArith := by
     | exact src_lazy_length_update
     | exact src_lazy_length_head_only
     | exact src_column_width
+    | exact src_measure_all_rows
+    | exact src_selection_sizes.1
+    | exact src_selection_sizes.2.1
+    | exact src_selection_sizes.2.2.1
+    | exact src_selection_sizes.2.2.2.1
+    | exact src_selection_sizes.2.2.2.2.1
+    | exact src_selection_sizes.2.2.2.2.2
     | exact src_eager_label_shift
     | exact src_eager_label
     | exact src_label_pad
@@ -358,6 +382,87 @@ theorem trunc_line_width (cw : Char → Nat) (width : Nat) (l : Str) (hl : ∀ c
     pwidth (truncPrintable srcArith cw l width false) = min (pwidth l) width := by
   rw [src_arith_eq_spec]; exact trunc_line_width_spec cw width l hl hw
 
+/-! ## 3b. The shown rows are shown with their values -/
+
+/-- **Every column is wide enough for each value printed in it, up to the column-width limit.**  For
+every data line of the table (eager or lazy, either mode), cell `j` of its row with `len(str(value)) = n`
+and the width `w` of column `j`: `min n max_column_width ≤ w`.  The widths are measured over the rows
+the source passes to `calculate_data_width` (`srcArith.measure`, extracted) — all printed rows. -/
+theorem column_fits_shown_values (p : Params) (f : Frame) (label : Nat) (row : List Cell)
+    (h : Line.data label row ∈ visibleRows srcArith f.rows p.limit p.tt p.lazy) (j w : Nat) (c : Cell)
+    (hc : row[j]? = some c) (hw : (colWidths srcArith p f)[j]? = some w) :
+    min (cellSlen c) p.maxCol ≤ w := by
+  rw [src_arith_eq_spec] at h hw
+  exact column_fits_spec p f row j w c (visibleRows_in_cut _ _ _ _ _ _ _ h) hc hw
+
+/-- **A value that fits its column is printed in full** (nothing is cut by `[:width]` or by
+`trunc_printable`): integers, booleans, floats / decimals (their `str()` text `s`), null, and printable
+text, each padded to the column width on the side the source pads it. -/
+theorem fitting_value_shown_in_full (cw : Char → Nat) (hcw : ∀ c, Printable c → cw c = 1) (strict : Bool) (w : Nat) :
+    (∀ i, (intStr i).length ≤ w →
+        formatCell srcArith cw strict (.int i) w = .ok (T_INTEGER ++ (spaces (w - (intStr i).length) ++ intStr i) ++ T_OFF))
+    ∧ (∀ b, (boolStr b).length ≤ w →
+        formatCell srcArith cw strict (.bool b) w = .ok (T_CONST ++ (spaces (w - (boolStr b).length) ++ boolStr b) ++ T_OFF))
+    ∧ (∀ s n, s.length ≤ w →
+        formatCell srcArith cw strict (.num s n) w = .ok (T_FLOAT ++ (spaces (w - s.length) ++ s) ++ T_OFF))
+    ∧ (4 ≤ w → formatCell srcArith cw strict .null w = .ok (T_NULL ++ (spaces (w - 4) ++ nullStr) ++ T_OFF))
+    ∧ (∀ s, PStr s → s.length ≤ w → 1 ≤ w →
+        formatCell srcArith cw strict (.text s) w = .ok (T_VARCHAR ++ ((s ++ spaces (w - s.length)) ++ T_OFF) ++ T_OFF)) := by
+  rw [src_arith_eq_spec]
+  refine ⟨?_, ?_, ?_, ?_, ?_⟩
+  · intro i h; simp only [formatCell, take_rjust_fits w _ h]
+  · intro b h; simp only [formatCell, take_rjust_fits w _ h]
+  · intro s n h; simp only [formatCell, take_rjust_fits w _ h]
+  · intro h; simp only [formatCell]; rw [take_rjust_fits w _ (by simpa [nullStr] using h)]; rfl
+  · intro s hs h hw
+    simp only [formatCell, truncPrintable]
+    rw [truncGo_fits cw hcw w true (ljust w s) 0 (pstr_ljust w hs) (by rw [length_ljust]; omega)
+      (by rw [length_ljust]; omega)]
+    rfl
+
+/-- **Measuring only the first `limit` printed rows would cut tail values** (the theorem above depends on
+`measure`): 3 rows, `limit = 1`, the last value six digits long — with `collect(i, limit)` the column is
+4 wide and the value is cut to `1234`; with the source's arithmetic it is 6 wide. -/
+theorem measure_head_only_counterexample :
+    let f : Frame := { names := [['a']], types := [['0']], rows := [[.int 1], [.int 2], [.int 123456]] }
+    let p : Params := { limit := 1, tt := true, lazy := false, showTypes := false, maxCol := 30, displayWidth := 80,
+                        strict := false }
+    colWidths { specArith with measure := fun _ l => l } p f = [4]
+    ∧ formatCell specArith cwModel false (.int 123456) 4 = .ok (T_INTEGER ++ ['1', '2', '3', '4'] ++ T_OFF)
+    ∧ colWidths srcArith p f = [6] := by
+  intro f p; exact ⟨by decide, rfl, by decide⟩
+
+/-- **The column names are printed, and the types exactly when asked.**  Whatever `_inner()` yields
+(`rawLines`), its second line is the header built from the column names; the third line is the type row
+built from the type names when `show_types` is set, and the separator `╞═╪═╡` otherwise (no type row).
+Every column is at least `min (len name) max_column_width` wide — and `min (len type) max_column_width`
+when types are shown — and a header cell shows a name that fits its column in full, centred between
+blanks (`v.center(w)[:w]`). -/
+theorem names_and_types_printed (cw : Char → Nat) (p : Params) (f : Frame) :
+    (∀ lines, rawLines srcArith cw p f = .ok lines →
+        lines[1]? = some (true, headerLine T_HEAD (idxWidth srcArith p f) f.names (colWidths srcArith p f))
+        ∧ (p.showTypes = true →
+            lines[2]? = some (true, headerLine T_TYPE (idxWidth srcArith p f) f.types (colWidths srcArith p f)))
+        ∧ (p.showTypes = false →
+            lines[2]? = some (true, border '╞' '╪' '╡' '═' (idxWidth srcArith p f) (colWidths srcArith p f))))
+    ∧ (∀ (j w : Nat), (colWidths srcArith p f)[j]? = some w →
+        ∃ (n ty : Str), f.names[j]? = some n ∧ f.types[j]? = some ty
+          ∧ min n.length p.maxCol ≤ w ∧ (p.showTypes = true → min ty.length p.maxCol ≤ w))
+    ∧ (∀ tok v w, v.length ≤ w →
+        ∃ l r, headCell tok v w = tok ++ (spaces l ++ v ++ spaces r) ++ T_OFF ∧ l + v.length + r = w) := by
+  refine ⟨?_, ?_, fun tok v w h => headCell_fits tok v w h⟩
+  · intro lines h
+    unfold rawLines at h
+    simp only at h
+    split at h
+    · simp at h
+    · simp only [Except.ok.injEq] at h
+      subst h
+      refine ⟨by simp, ?_, ?_⟩ <;> intro hs <;> simp [hs]
+  · intro j w h
+    rw [src_arith_eq_spec] at h
+    exact column_fits_name_spec p f j w h
+
 /-! ## 4. Never fails -/
 
 /-- **The formatter is total over the modelled cell kinds** (repaired code, `errors="replace"`): for
@@ -375,6 +480,96 @@ theorem strict_decode_fails (cw : Char → Nat) :
 /-- Every table renders (replace mode), whatever the cells, names, types and parameters. -/
 theorem render_total (cw : Char → Nat) (p : Params) (f : Frame) (hp : p.strict = false) :
     ∃ lines, renderLines srcArith cw p f = .ok lines := render_total_any srcArith cw p f hp
+
+/-! ## 4b. The `if` chain of `type_formatter` and `numpy_type_mapper`, as extracted from the source
+
+`Gen.DisplayFmt.branches` is the chain of tests of `type_formatter` in source order, each with the colour
+token its branch writes first and what the branch reads from `value`; `Gen.DisplayFmt.mapper` is the
+decision tree of `numpy_type_mapper`.  `PyKinds` holds the facts about Python / numpy the tests rely on
+(class hierarchy, attributes, what `math.isnan` / `numpy.isnat` accept) — compared with the interpreter
+on every run. -/
+
+section chain
+open PyKinds DisplayFmt
+
+/-- **Every value kind of the statement is formatted without an exception, by its own branch**: for
+each kind (null, bool, int, float incl. NaN, Decimal incl. quiet and signalling NaN, text, datetime, date,
+time, bytes, bytearray, dict, timedelta, MonthDayNano, the mapper's namespace, list, tuple, set,
+frozenset, complex) no test of the chain raises before a branch is chosen, the chosen branch reads only
+attributes the value has (and iterates only over iterables), and it is the branch the hand model
+`formatCell` uses for that kind (same colour token) — in particular `bool` is caught before `int`,
+`datetime` before `date`, `MonthDayNano` (a tuple with `.days`) before `list / tuple`, NaN floats by the
+null test, and `isnan` is only ever applied to floats. -/
+theorem formatter_chain_total :
+    ∀ k : Kind, formatsWith Gen.DisplayFmt.branches k (tagToken (kindTag k)) = true := by
+  intro k; cases k <;> decide
+
+/-- **Every branch cuts its text to the column width, the way the hand model does**: no branch of the
+extracted chain returns uncut text, and for every value kind the branch that formats it pads (`rjust` /
+`ljust` / by `trunc_printable`) and cuts (`[:width]` / `trunc_printable(…, width)`) as `formatCell` does for
+that kind (`modelLayout`). -/
+theorem formatter_chain_layout :
+    (∀ b ∈ Gen.DisplayFmt.branches, b.cut ≠ .uncut)
+    ∧ ∀ k : Kind, layoutOf Gen.DisplayFmt.branches k = some (modelLayout (kindTag k)) := by
+  refine ⟨by decide, ?_⟩
+  intro k; cases k <;> decide
+
+/-- **numpy scalars and arrays**: the first test of `type_formatter` sends every numpy value through
+`numpy_type_mapper`; no test of the mapper raises; the result is the Python value the statement expects
+(arrays → lists, timedelta64 → an interval namespace, NaT → null, integer / floating / bool_ → int /
+float / bool with NaN preserved, anything else its `str()`), and that value is formatted by its branch. -/
+theorem numpy_values_mapped_and_formatted :
+    ∀ k : NpKind, mapped k Gen.DisplayFmt.mapGuard = true ∧ npMapped k = some (npIntended k)
+      ∧ formatsWith Gen.DisplayFmt.branches (npIntended k) (tagToken (kindTag (npIntended k))) = true := by
+  intro k; cases k <;> decide
+
+/-- The guard model is not vacuous: widening the null test to `isinstance(value, (float, Decimal)) and
+isnan(value)` makes the chain raise `ValueError` on a signalling-NaN decimal, and testing `int` before
+`bool` sends `True` to the integer branch. -/
+theorem chain_order_and_guards_matter :
+    dispatch [{ guard := .or .isNone (.and (.isInst [.float, .decimal]) .isNan), token := T_NULL, body := .leaf [] false,
+                pad := .rjust, cut := .slice }]
+        .decSNaN = .error .valueError
+    ∧ formatsWith [{ guard := .isInst [.int], token := T_INTEGER, body := .leaf [] false, pad := .rjust, cut := .slice },
+                   { guard := .isInst [.bool], token := T_CONST, body := .leaf [] false, pad := .rjust, cut := .slice }]
+        .boolV T_CONST = false
+    ∧ formatsWith [{ guard := .isInst [.bytes, .str], token := T_BLOB, body := .leaf [.decode] false, pad := .ljust, cut := .trunc }]
+        .strV T_BLOB = false := by
+  refine ⟨rfl, by decide, by decide⟩
+
+/-- **The hand model follows the chain**: whatever `formatCell` returns for a cell starts with the colour
+token of the cell's branch — the token `formatter_chain_total` finds in the source for every value kind
+modelled by that cell (`kindTag`). -/
+theorem formatCell_starts_with_branch_token (cw : Char → Nat) (c : Cell) (w : Nat) (s : Str)
+    (h : formatCell srcArith cw false c w = .ok s) : tagToken (cellTag c) <+: s := by
+  cases c with
+  | null => simp only [formatCell, Except.ok.injEq] at h; subst h; exact ⟨_, by simp [tagToken, cellTag]; rfl⟩
+  | bool b => simp only [formatCell, Except.ok.injEq] at h; subst h; exact ⟨_, by simp [tagToken, cellTag]; rfl⟩
+  | int i => simp only [formatCell, Except.ok.injEq] at h; subst h; exact ⟨_, by simp [tagToken, cellTag]; rfl⟩
+  | num t n => simp only [formatCell, Except.ok.injEq] at h; subst h; exact ⟨_, by simp [tagToken, cellTag]; rfl⟩
+  | text t => simp only [formatCell, Except.ok.injEq] at h; subst h; exact ⟨_, by simp [tagToken, cellTag]; rfl⟩
+  | datetime d t n => simp only [formatCell, Except.ok.injEq] at h; subst h; exact ⟨_, by simp [tagToken, cellTag]; rfl⟩
+  | date d n => simp only [formatCell, Except.ok.injEq] at h; subst h; exact ⟨_, by simp [tagToken, cellTag]; rfl⟩
+  | bytes b n =>
+    simp only [formatCell] at h
+    split at h
+    · simp only [Except.ok.injEq] at h; subst h; exact ⟨_, by simp [tagToken, cellTag]; rfl⟩
+    · simp at h
+  | dict kvs n =>
+    simp only [formatCell, Except.ok.injEq] at h; subst h
+    exact truncPrintable_token_prefix _ cw w true ['P', 'U', 'N', 'C'] _ (by decide)
+  | interval ps n =>
+    simp only [formatCell, Except.ok.injEq] at h; subst h
+    exact truncPrintable_token_prefix _ cw w true ['I', 'N', 'T', 'E', 'R', 'V', 'A', 'L'] _ (by decide)
+  | intervalInt mo d sc n =>
+    simp only [formatCell, Except.ok.injEq] at h; subst h
+    exact truncPrintable_token_prefix _ cw w true ['I', 'N', 'T', 'E', 'R', 'V', 'A', 'L'] _ (by decide)
+  | list xs n =>
+    simp only [formatCell, Except.ok.injEq] at h; subst h
+    exact truncPrintable_token_prefix _ cw w true ['P', 'U', 'N', 'C'] _ (by decide)
+  | other t => exact ⟨_, by simp [tagToken, cellTag]; rfl⟩
+
+end chain
 
 /-! ## 5. Intervals -/
 
@@ -481,6 +676,46 @@ theorem colorizer_keeps_width (on : Bool) (segs : List Seg)
         exact (hinv kv hkv).1)
     simp only [List.map_id] at this
     exact this
+
+/-- **Colour on and off: the text `ascii_table` returns has the same printed width.**  For a
+printable-ASCII frame every line the table joins is in token form — text without escape characters
+interleaved with colour tokens that are keys of the **extracted** `COLORS` — also after the cut to the
+display width (`trunc_printable` never cuts inside a token).  Hence `colorizer` (the sequential
+`str.replace` loop over the extracted table), with colour on (tokens → ANSI codes) as with colour off
+(tokens removed), turns every box line into a string that prints exactly
+`min tableWidth display_width` characters and leaves no escape open. -/
+theorem colour_on_and_off_same_width (cw : Char → Nat) (hcw : ∀ c, Printable c → cw c = 1)
+    (hbox : ∀ c ∈ boxChars, cw c = 1) (p : Params) (f : Frame) (hf : FrameAscii f)
+    (hl : 1 ≤ p.limit) (hm : 1 ≤ p.maxCol) (hd : 1 ≤ p.displayWidth) (on : Bool) :
+    ∃ lines, renderLines srcArith cw p f = .ok lines
+      ∧ ∀ l ∈ lines, l.1 = true →
+          scan false (colorize Gen.Display.colors on l.2)
+            = (min (tableWidth (idxWidth srcArith p f) (colWidths srcArith p f)) p.displayWidth, false) := by
+  obtain ⟨lines, hr, hw⟩ := within_display_width cw hcw hbox p f hf hl hm hd
+  refine ⟨lines, hr, ?_⟩
+  intro l hmem hb
+  have htf : TF l.2 := by
+    rw [src_arith_eq_spec] at hr
+    exact renderLines_TF cw p f hf hl lines hr l hmem
+  obtain ⟨segs, hflat, hgood⟩ := htf
+  have hs : ∀ sg ∈ segs, SegOk (Gen.Display.colors.map Prod.fst) sg := by
+    intro sg hsg
+    have := hgood sg hsg
+    cases sg with
+    | txt t =>
+      simp only [SegOk, NoMark]
+      intro hmark
+      have := (txtC_facts (this _ hmark)).1
+      simp [isEsc] at this
+    | tok k => exact tokens_defined.2 k this
+  have ht : ∀ t, Seg.txt t ∈ segs → ∀ c ∈ t, isEsc c = false :=
+    fun t h c hc => (txtC_facts (hgood _ h c hc)).1
+  obtain ⟨hon, hraw⟩ := colorizer_keeps_width on segs hs ht
+  have hwid := (hw l hmem hb).1
+  rw [hflat] at hwid ⊢
+  rw [hon]
+  simp only [pwidth, hraw] at hwid
+  rw [hwid]
 
 /-! ## 7. Markdown -/
 
